@@ -314,6 +314,11 @@ func (e *Engine) indexAnchors(fi *FuncInfo) {
 	walkBlock = func(stmts []ast.Stmt) {
 		for _, s := range stmts {
 			owner := s
+			// `after if k assert E`: the k-th block-level if statement (source order) is an anchor of its own
+			if is, ok := s.(*ast.IfStmt); ok {
+				fi.CallOrd["if"]++
+				fi.Anchors[is] = append(fi.Anchors[is], fmt.Sprintf("if#%d", fi.CallOrd["if"]))
+			}
 			if ls, ok := s.(*ast.LabeledStmt); ok {
 				// the labelled statement is executed as the first statement of the label loop's body
 				owner = ls.Stmt
